@@ -79,7 +79,22 @@ def spec(mode, idx, text, toks, status, code, out, lexer):
         return 'exit-code-outside-protocol'
     if mode == 'print':
         want = ''.join(t for _, t in toks)
-        return None if (code == 51 and out == want) else 'print-output-differs-from-tokens'
+        if not (code == 51 and out == want):
+            return 'print-output-differs-from-tokens'
+        # independent of any lexer: on a text without quotes and backslashes, printing all tokens gives back the text minus
+        # its block comments — every other byte (carriage returns, form feeds, bytes outside ASCII) comes out as it went in
+        if not any(ch in text for ch in '"\'\\'):
+            exp, i = [], 0
+            while i < len(text):
+                if text.startswith('/*', i):
+                    j = text.find('*/', i + 2)
+                    i = j + 2
+                    continue
+                exp.append(text[i])
+                i += 1
+            if out != ''.join(exp):
+                return 'print-output-is-not-the-input-minus-comments'
+        return None
     if code != 51:
         return None
     otoks, ost = lexer.tokenize(out)
@@ -168,7 +183,12 @@ def gen_texts(ctx):
              '#define X y\nX X\n#define Z\n', 'a b c d e f g h i j', '# \t', 'x #', '#\n', '# define X', 'X # define X',
              # block comments whose terminator follows a run of stars (even and odd), empty comments, stars inside
              'a /** doc **/ b', 'a /***/ b', 'a /**/ b', 'a /* x **/ b /* y */ c', 'a /*** x ***/ b', 'a /* * / */ b', 'a /* x *', 'a /**', 'a /*/ b */ c',
-             'a(b, c); d e f g h', 'f(a, b, c, d, e, f, g, h, i, j);']
+             'a(b, c); d e f g h', 'f(a, b, c, d, e, f, g, h, i, j);',
+             # macros whose body names the macro itself, followed by other used macros (every used macro occupies an index)
+             '#define X X+1\n#define Y 2\nX Y\n', '#define next next->next\n#define A 1\nnext A\n', '#define A 1\n#define X X\nA X A\n#define B 2\nB\n',
+             '#define P P\nP\n#define Q 3\nQ Q\n',
+             # carriage returns, form feeds, vertical tabs and bytes outside ASCII outside of literals
+             'a\r\nb\r\n', 'x\ry', 'int a;\r\n/* c */\r\nint b;\r', 'a\fb\vc', 'caf\xe9 = 1;\r\n', '\r', 'a \r b']
     # sizes that cross the growth steps of the helper's tables (token list, identifier index): many distinct identifiers,
     # many tokens, long tokens
     for k in (8, 9, 10, 16, 17, 18, 31, 33, 64, 65, 129, 300):
